@@ -6,7 +6,8 @@
 //! `boostrap_arguments` as "bootstrap_arguments"); tables are arrays; u1/u2 are numbers; a u4 datum
 //! (Integer/Float/Long/Double payload) is [high half, low half] because TLC integers are 32 bit signed.
 //!
-//! ops  {"op":"value","x":raw value,"lay":[[role,width]..]?,"wf":bool}
+//! ops  {"op":"value","x":raw value,"lay":[[role,width]..]?,"wf":bool,"frag":k?,"before":raw value?}
+//!          (frag: the read-back gets at most k bytes per call of Read::read; before: another class read and dropped right before it)
 //!          build the crate's ClassFile from x, to_bytes(), write(), length(), read() of the written bytes, cross-read
 //!          by cfkit::parse::parse_class and duke::read_class
 //!          -> {"len":bytes written,"announced":length(),"bytes":[..],"write_same":write()==to_bytes(),
@@ -389,6 +390,17 @@ fn cross_duke(bytes: &[u8]) -> (bool, bool) {
 	}
 }
 
+/// A reader that hands out at most `k` bytes per call (k = 0: whatever is asked for): `Read::read` may return short counts,
+/// what was read may not depend on how the stream delivers its bytes.
+struct Frag<'a> { inner: Cursor<&'a [u8]>, k: usize }
+impl std::io::Read for Frag<'_> {
+	fn read(&mut self, buf: &mut [u8]) -> std::io::Result<usize> {
+		let n = if self.k == 0 { buf.len() } else { buf.len().min(self.k) };
+		self.inner.read(&mut buf[..n])
+	}
+}
+fn frag_of(v: &Value) -> usize { v.get("frag").and_then(Value::as_u64).unwrap_or(0) as usize }
+
 fn exec_value(v: &Value) -> Result<Value> {
 	let x = v.get("x").context("x")?;
 	let c = class_from(x)?;
@@ -396,7 +408,12 @@ fn exec_value(v: &Value) -> Result<Value> {
 	let mut w = Vec::new();
 	let write_ok = c.write(&mut w).is_ok();
 	let announced = c.length();
-	let back = catch_unwind(AssertUnwindSafe(|| r::ClassFile::read(&mut Cursor::new(&bytes))));
+	// history: another class read (and dropped) on this thread right before - what is read may not depend on it
+	if let Some(b) = v.get("before").filter(|b| b.get("constant_pool").is_some()) {
+		let before = class_from(b)?.to_bytes();
+		let _ = catch_unwind(AssertUnwindSafe(|| r::ClassFile::read(&mut Cursor::new(&before)).map(drop)));
+	}
+	let back = catch_unwind(AssertUnwindSafe(|| r::ClassFile::read(&mut Frag { inner: Cursor::new(&bytes[..]), k: frag_of(v) })));
 	let (back_ok, back_equal, back_panic) = match &back {
 		Ok(Ok(c2)) => (true, *c2 == c, false),
 		Ok(Err(_)) => (false, false, false),
@@ -507,7 +524,7 @@ fn exec_bytes(v: &Value) -> Result<Value> {
 	g.insert("in_kinds".into(), json!(in_kinds));
 	g.insert("in_attrs".into(), json!(in_attrs));
 	// the crate
-	let read = catch_unwind(AssertUnwindSafe(|| r::ClassFile::read(&mut Cursor::new(&input))));
+	let read = catch_unwind(AssertUnwindSafe(|| r::ClassFile::read(&mut Frag { inner: Cursor::new(&input[..]), k: frag_of(v) })));
 	let (read_ok, read_panic, read_err) = match &read {
 		Ok(Ok(_)) => (true, false, String::new()),
 		Ok(Err(e)) => (false, false, e.to_string()),
@@ -822,6 +839,8 @@ pub fn gen(seed: u64, n: usize) -> Result<Vec<Value>> {
 		ids.sort();
 	}
 	for id in ids { out.push(json!({"op": "bytes", "id": format!("corpus:{id}")})); }
+	// how the stream delivers the bytes: all at once, or at most 1 / 7 / 100 / 4096 bytes per call
+	for (i, rec) in out.iter_mut().enumerate() { rec["frag"] = json!([0, 1, 7, 100, 4096][i % 5]); }
 	// raw values
 	for x in boundary_values() { out.push(json!({"op": "value", "wf": false, "x": x})); }
 	let values = n.saturating_sub(out.len()).max(200);
